@@ -301,6 +301,9 @@ var h1Routes = []string{"direct", "upstream", "mitm", "handler"}
 
 const h1HeaderLimit = 300 * time.Millisecond
 
+// h1LogHTTP: --log-http mode of every h1 route ("" = default); set from the command line (--arg loghttp=...).
+var h1LogHTTP string
+
 func newH1Env(seed int64) *h1Env {
 	ca, _ := harnessCAs()
 	he := &h1Env{routes: map[string]*fwd{}, hop: &scriptHop{scripts: map[string]*script{}}, log: &hitLog{}, seed: seed}
@@ -317,7 +320,7 @@ func newH1Env(seed int64) *h1Env {
 	}
 	for _, r := range h1Routes {
 		// a short read-header limit: it must only ever apply to request heads
-		fc := fwdCfg{Name: "fwd", Localhost: "allow", ReadHeaderTimeout: h1HeaderLimit, Deny: []string{`denied\.test$`}}
+		fc := fwdCfg{Name: "fwd", Localhost: "allow", ReadHeaderTimeout: h1HeaderLimit, Deny: []string{`denied\.test$`}, LogHTTP: h1LogHTTP}
 		switch r {
 		case "upstream":
 			fc.Upstream = "http://" + addrA
@@ -707,6 +710,7 @@ type h1Exchange struct {
 }
 
 func h1Seq(e *env) {
+	h1LogHTTP = e.args["loghttp"]
 	he := newH1Env(e.seed)
 	defer he.close()
 	var seqs [][]h1Exchange
@@ -737,6 +741,11 @@ func h1Seq(e *env) {
 func (he *h1Env) sequence(si int, seq []h1Exchange) map[string]any {
 	route := h1Routes[si%len(h1Routes)]
 	for k := range seq {
+		if seq[k].Up.Early && seq[k].Req.Body != "none" && route == "handler" {
+			// net/http's HTTP/1 server does not let a handler answer while the request body is still arriving (no full
+			// duplex): early replies are exercised on the proxy's own connection handling
+			route = []string{"direct", "upstream", "mitm"}[si%3]
+		}
 		if seq[k].Req.Refused && (route == "mitm" || route == "handler") {
 			// inside an intercepted session the authority is fixed by the CONNECT; in the http.Handler test variant the
 			// connection belongs to net/http's server, which resets an HTTP/1.0 client whose refused request had a
